@@ -10,6 +10,7 @@ package main
 import (
 	"bufio"
 	"bytes"
+	"context"
 	"encoding/json"
 	"fmt"
 	"os"
@@ -19,6 +20,7 @@ import (
 	"sort"
 	"strings"
 	"sync"
+	"sync/atomic"
 	"time"
 
 	"verif/harness/c16/scn"
@@ -273,7 +275,7 @@ func workerMain() {
 
 var raceRe = regexp.MustCompile(`(?s)WARNING: DATA RACE.*?==================`)
 
-func racePass(rep *report.Reporter, cov report.Coverage, budget time.Duration) {
+func racePass(rep *report.Reporter, cov report.Coverage, budget time.Duration, skip map[string]bool) {
 	b := os.Getenv("VERIF_BUILD_DIR")
 	repo := os.Getenv("VERIF_REPO_DIR")
 	root := report.Root()
@@ -314,14 +316,48 @@ func racePass(rep *report.Reporter, cov report.Coverage, budget time.Duration) {
 	if thorough() {
 		th = "1"
 	}
+	var hungCount int32
+	skipped := 0
 	done, complete := enum.Range(int64(len(jobs)), deadline, func(i int64) {
 		j := jobs[i]
-		c := exec.Command(filepath.Join(b, "racebin"), j.fib, fmt.Sprint(j.idx), fmt.Sprint(reps), th)
-		c.Env = append(os.Environ(), "GORACE=halt_on_error=0", "GOMAXPROCS=4")
+		// scenarios in which the controlled exploration already found a deadlock would only hang
+		// here; after three real hangs the rest of the pass is abandoned (reported below)
+		if skip[fmt.Sprint(j.fib, j.idx)] || atomic.LoadInt32(&hungCount) >= 3 {
+			mu.Lock()
+			skipped++
+			mu.Unlock()
+			return
+		}
+		// A free-running execution that really deadlocks never returns: generous watchdog (a run
+		// normally takes a second or two), and a hit is re-run once with three times the time
+		// before it is believed.
 		var stderr bytes.Buffer
-		c.Stderr = &stderr
-		c.Stdout = nil
-		err := c.Run()
+		var err error
+		hung := false
+		for attempt, limit := 0, 120*time.Second; attempt < 2; attempt, limit = attempt+1, 3*limit {
+			stderr.Reset()
+			ctx, cancel := context.WithTimeout(context.Background(), limit)
+			c := exec.CommandContext(ctx, filepath.Join(b, "racebin"), j.fib, fmt.Sprint(j.idx), fmt.Sprint(reps), th)
+			c.Env = append(os.Environ(), "GORACE=halt_on_error=0", "GOMAXPROCS=4")
+			c.Stderr = &stderr
+			c.Stdout = nil
+			err = c.Run()
+			hung = ctx.Err() == context.DeadlineExceeded
+			cancel()
+			if !hung {
+				break
+			}
+		}
+		if hung {
+			atomic.AddInt32(&hungCount, 1)
+			mu.Lock()
+			runs += reps
+			crashes++
+			rep.Add(report.Violation{Clause: "C16.deadlock", Key: "free-running execution never finishes (deadlock) : " + kinds(all[j.idx]), Detail: fmt.Sprintf("[%s %s] the scenario did not finish within 120 s and again within 360 s (it normally takes about a second)", j.fib, all[j.idx].Name),
+				Replay: map[string]any{"mode": "race", "fib": j.fib, "scenario": all[j.idx].Name, "index": j.idx}})
+			mu.Unlock()
+			return
+		}
 		mu.Lock()
 		defer mu.Unlock()
 		runs += reps
@@ -348,7 +384,7 @@ func racePass(rep *report.Reporter, cov report.Coverage, budget time.Duration) {
 				Replay: map[string]any{"mode": "race", "fib": j.fib, "scenario": s.Name, "index": j.idx}})
 		}
 	})
-	cov["race_pass"] = map[string]any{"scenario_runs": done, "repetitions_each": reps, "executions": runs, "race_reports": races, "crashes": crashes, "complete": complete,
+	cov["race_pass"] = map[string]any{"scenario_runs": done, "repetitions_each": reps, "executions": runs, "race_reports": races, "crashes": crashes, "complete": complete && skipped == 0, "scenarios_skipped_because_deadlocked": skipped,
 		"note": "auxiliary sampled evidence (free-running goroutines under the Go race detector); decides only the data-race clause"}
 }
 
@@ -453,6 +489,7 @@ func main() {
 		}()
 	}
 	wg.Wait()
+	deadlocked := map[string]bool{}
 	execs, points, complete, outcomes, dbl := 0, 0, true, 0, 0
 	minBound := bound
 	var samples []string
@@ -473,6 +510,9 @@ func main() {
 		}
 		per = append(per, r.Stats)
 		for _, f := range r.Found {
+			if f.Clause == "C16.deadlock" {
+				deadlocked[fmt.Sprint(f.Fib, f.Idx)] = true
+			}
 			rep.Add(report.Violation{Clause: f.Clause, Key: f.Key, Detail: fmt.Sprintf("[%s %s] %s ; schedule trace %v", f.Fib, f.Scenario, f.Detail, f.Trace),
 				Replay: map[string]any{"mode": "sched", "fib": f.Fib, "index": f.Idx, "scenario": f.Scenario, "schedule": f.Schedule, "thorough_scenarios": rep.Thorough()}})
 		}
@@ -488,7 +528,7 @@ func main() {
 		"rule":        "for each of the 2- and 3-thread scenarios (all pairs over 16 thread programs colliding on /a, /a/b and faces 1,2, plus selected triples) x {tree, hashtable FIB}: every schedule with at most the stated number of preemptions, scheduling points at every sync operation of fw/table and between obtaining and consuming a lookup result; each complete execution checked for crash, deadlock, linearizability against the same implementation run sequentially (brute force over all program-order- and real-time-consistent orders), torn results and final-state equivalence",
 		"explanation": "states/transitions = scheduling points visited; every schedule is an execution of the real code under the controlled scheduler",
 	}
-	racePass(rep, cov, raceBudget)
+	racePass(rep, cov, raceBudget, deadlocked)
 	rep.Finish(cov, []string{
 		"scheduling points exist only at sync operations of fw/table (and explicit yields in the bodies); unsynchronised accesses are covered by the separate free-running -race pass (sampled, auxiliary)",
 		"Go lock fairness/writer preference and memory-model effects beyond sequential consistency are not modelled",
